@@ -67,7 +67,7 @@ fn pat(m: &Match) -> String {
     match m {
         Match::Identifier(n, _) => n.clone(),
         Match::Literal(l) => lit(l),
-        Match::String(_, b) => format!("\\\"{}\\\"", qverif::hex(b)),
+        Match::String(..) => "=str".into(),
         Match::Tuple(t) => format!(
             "{}[{}]",
             t.name.clone().unwrap_or_default(),
@@ -150,7 +150,7 @@ fn term(t: &Term, cx: &mut Cx) -> String {
                 .collect();
             format!("{name}[{}]", fs.join(", "))
         }
-        Term::String(_, segs) => format!("str{}", segs.len()),
+        Term::String(..) => "str".into(),
         Term::Match(m) => format!("={}", pat(m)),
         Term::Block(e) => format!("{{ {} }}", expr(e, cx)),
         Term::Function(f) => function(f, cx),
